@@ -59,7 +59,8 @@ class DefaultCaseBlockCompileHandler(
         if self.is_message_case:
             raise SsbCompilerError(_("Invalid message switch case call."))
         self.compiler_ctx.add_switch_case(self)
-        retval = self._process_block(False)
+        # The previous case may fall through into this block, so a single jump/break must stay an operation.
+        retval = self._process_block(False, False)
         self.compiler_ctx.remove_switch_case()
         return retval
 
